@@ -31,7 +31,8 @@ RULE = ('melt/recast: all rectangular tables, w in {2,3} x every permutation of 
         'length 0..6(8) x period 1..4(5) x missing. pivot: every table <= 4 rows over f1 x f2 alphabets, values '
         '2^i, aggfun sum/list/len/max, two field layouts. unpack/unpackdict/capture/split/splitdown: every '
         'combination of cell contents (<= 2 rows), field position (first/middle/last), name/index, newfields, '
-        'include_original, missing/fill/maxsplit, the OTHER two cells of each row being position tags or (tables '
+        'include_original, missing/fill/maxsplit (unpackdict: <= 3 rows whose dict key sets differ, keys given or sampled '
+        'with samplesize in {0,1,2,1000}: fields = sorted union of the keys of the sampled rows only), the OTHER two cells of each row being position tags or (tables '
         'of <= 1 (thorough 2) rows: every combination of) a value equal to the expanded cell / equal to its first '
         'part. fromdicts(dicts(t)), fromcolumns(columns(t)): every shape w<=3, n<=3. '
         'states = distinct (table, call form) points. Non-trivial: round trips whose table is not already in '
@@ -384,6 +385,25 @@ def evaluate(case):
                         frame(fails, 'unpackdict', t, res[1], fi, inc, what)
                     if len(t) > 1:
                         st[3] += 1
+        # keys discovered by sampling the first `samplesize` rows only
+        for ss in (0, 1, 2, 1000):
+            for inc in (False, True):
+                for missing in (None, MARK):
+                    kw = {'samplesize': ss}
+                    if inc:
+                        kw['includeoriginal'] = True
+                    if missing is not None:
+                        kw['missing'] = missing
+                    exp = R.unpackdict(t, fi, None, inc, missing, samplesize=ss)
+                    res = run(lambda: etl.unpackdict(t, hdr[fi], **kw))
+                    what = 'unpackdict(t, %r%s)' % (hdr[fi], ''.join(', %s=%r' % kv for kv in kw.items()))
+                    if pt(res, exp, 'unpackdict(samplesize=)', what):
+                        frame(fails, 'unpackdict(samplesize=)', t, res[1], fi, inc, what)
+                    sampled = set()
+                    for r in t[1:1 + ss]:
+                        sampled |= set(r[fi])
+                    if any(set(r[fi]) - sampled for r in t[1 + ss:]):
+                        st[3] += 1       # a later row carries a key outside the sampled set
         st[4] = ('unpackdict', fi, tuple(tuple(sorted(r[fi])) for r in t[1:]))
         return fails, st
 
@@ -776,7 +796,7 @@ def run_item(item, acc):
     elif fam == 'unpackdict':
         opts = [lambda i: {}, lambda i: {'p': 'r%dp' % i}, lambda i: {'q': 'r%dq' % i},
                 lambda i: {'q': 'r%dq' % i, 'p': None}]
-        for t in tables(opts, 3 if tier == 'thorough' else 2, first_dict_value):
+        for t in tables(opts, 3, first_dict_value):
             _do(acc, {'form': 'unpackdict', 'table': t, 'fi': fi}, 'unpackdict')
     elif fam == 'capture':
         opts = [lambda i: 'A1', lambda i: 'Bc22', lambda i: 'x9y', lambda i: '--', lambda i: '-A1']
